@@ -10,6 +10,6 @@ script=$(mktemp); cat > $script
 ( cd $wt && bash $script ) || { echo "edit failed"; }
 ( cd $wt && git diff --stat | tail -1 )
 ( cd $wt && . /verif/env.sh && go build ./... ) || echo "MUTANT DOES NOT BUILD"
-VERIF_REPO=$wt VERIF_SCRATCH=/tmp/vs-$name /verif/vcheck $prop $tier 2>&1 | grep -v "^  check=" | cut -c1-400 | tail -8
+VERIF_REPO=$wt VERIF_SCRATCH=/tmp/vs-$name /verif/vcheck $prop $tier 2>&1 | cut -c1-400 | tail -8
 echo "mutant=$name prop=$prop exit=${PIPESTATUS[0]}"
 git -C /repo worktree remove --force $wt; rm -rf /tmp/vs-$name $script
